@@ -14,6 +14,7 @@ import (
 	"net/netip"
 	"sort"
 	"sync"
+	"sync/atomic"
 	"testing"
 	"time"
 
@@ -43,7 +44,8 @@ type c10CtlCase struct {
 	MaxCacheSize       int               `json:"max_cache_size"`
 	OptimisticCache    bool              `json:"optimistic_cache,omitempty"`
 	OptimisticCacheTtl int               `json:"optimistic_cache_ttl,omitempty"`
-	Quiet              bool              `json:"quiet,omitempty"` // dump cache and kernel map after the LAST operation only (large histories)
+	HoldWorker         bool              `json:"hold_worker,omitempty"` // reload: park the re-sync worker at its first kernel write until every entry is queued
+	Quiet              bool              `json:"quiet,omitempty"`       // dump cache and kernel map after the LAST operation only (large histories)
 	Ops                []c10CtlOp        `json:"ops"`
 }
 
@@ -104,7 +106,18 @@ func c10CtlRun(cs c10CtlCase) (res c10CtlResult) {
 	var calls []c10CtlCall
 	curKind := ""
 	var curCache *DnsCache
+	// hold_worker: the async re-sync worker is parked at the kernel-write step of its FIRST task of a reload
+	// (a slow write) until RestoreReloadCache has queued every entry; then it is released.  Event-driven.
+	var holdArmed atomic.Bool
+	var holdOnce *sync.Once
+	var workerHeld, workerRelease chan struct{}
 	VerifDomainRoutingObserver = func(owner string, ku [][4]uint32, vu []bpfDomainRouting, kd [][4]uint32) {
+		if holdArmed.Load() {
+			holdOnce.Do(func() {
+				close(workerHeld)
+				<-workerRelease
+			})
+		}
 		for i := range ku {
 			shadow[ku[i]] = vu[i]
 		}
@@ -317,7 +330,21 @@ func c10CtlRun(cs c10CtlCase) (res c10CtlResult) {
 			}
 			ctrl = ctrl2
 			callsBefore := countCalls()
+			if cs.HoldWorker && len(entries) > 0 {
+				holdOnce, workerHeld, workerRelease = &sync.Once{}, make(chan struct{}), make(chan struct{})
+				holdArmed.Store(true)
+			}
 			ctrl.RestoreReloadCache(entries, bitmapOf, time.Now())
+			if holdArmed.Load() {
+				// every entry has been offered to the queue; the worker is (or will be) parked on its first task
+				select {
+				case <-workerHeld:
+				case <-time.After(20 * time.Second):
+					panic("hold_worker: the re-sync worker never reached its first kernel write")
+				}
+				holdArmed.Store(false)
+				close(workerRelease)
+			}
 			// quiescence: every restored entry with addresses has been synced by the async worker
 			deadline := time.Now().Add(3 * time.Second)
 			for time.Now().Before(deadline) {
